@@ -74,17 +74,27 @@ def showNoise (nc : Nat) (os : List Int) (ps : List (List Byte)) : String :=
   "C" ++ toString nc ++ " " ++ toString (fnv ((os.map stsChar).map fun c => BitVec.ofNat 8 c.toNat)) ++ " " ++
   toString ps.length ++ " " ++ toString (fnv (ps.reverse.flatMap fun p => BitVec.ofNat 8 p.length :: p))
 
+/-- the session the harness runs from a static constructor BEFORE `main()` (op `premain`) -/
+def premainLine : String :=
+  "seq 40 16 Ea8b2c541acad/00 N I9 F Aacacadaeaeaf Eacadaea8b2c5 N S9 F V41ac A10207f7f3040 E107f20/41 N I8 F G00acad41 ls7 lf"
+
+def runSeq (outcap blkcap : String) (toks : List String) : String :=
+  let r : Option String := do
+    let oc ← outcap.toNat?
+    let bc ← blkcap.toNat?
+    let ops ← toks.mapM parseSOp?
+    let x := Sess.run (Sess.start oc bc) ops
+    pure (";".intercalate (x.2.map showSOut))
+  r.getD "bad-op"
+
 def stepLine2 (u : Unit) (line : String) : Unit × String :=
   match words line with
+  | ["premain"] =>
+    match words premainLine with
+    | _ :: outcap :: blkcap :: toks => ((), runSeq outcap blkcap toks)
+    | _ => ((), "bad-op")
   | ["sizes"] => ((), " ".intercalate (widths.map toString))
-  | "seq" :: outcap :: blkcap :: toks =>
-    let r : Option String := do
-      let oc ← outcap.toNat?
-      let bc ← blkcap.toNat?
-      let ops ← toks.mapM parseSOp?
-      let x := Sess.run (Sess.start oc bc) ops
-      pure (";".intercalate (x.2.map showSOut))
-    ((), r.getD "bad-op")
+  | "seq" :: outcap :: blkcap :: toks => ((), runSeq outcap blkcap toks)
   | ["long", codec, kind, n, seed] =>
     let r : Option String := do
       let n ← n.toNat?
